@@ -229,11 +229,19 @@ func c18Cases(tier string) int {
 func init() {
 	register(&Prop{
 		ID: "C18", Level: "exploration",
-		Rule: "enumerated: directive (%s %f %v) x 13 arguments of every kind x 11 widths (0..65536) x {right-aligned, left-aligned, zero-padded}: field length = max(|width|, rendering length) with the rendering at the correct end, wrong-kind arguments are runtime errors that write nothing (law on the implementation alone); 15 error forms (dangling %, dangling width, lone -, unknown codes, width beyond the limit, missing argument, non-string format) after earlier output; sampled: format strings from a grammar (literal runs incl. multi-byte and escapes, 1-5 directives with widths of either sign / leading zero / at the rendering length +-1 / beyond the limit, %%, unknown codes, dangling forms) with exact / too few / too many arguments, wrapped between two other printfs, compared byte for byte with the reference formatter. Non-trivial = a directive with a width, or an error case; distinct by program.",
-		NumCases:      c18Cases,
-		Run:           func(c *Case) { if c.Idx == 0 { c18Matrix(c) } else { c18Random(c) } },
+		Rule:     "enumerated: directive (%s %f %v) x 13 arguments of every kind x 11 widths (0..65536) x {right-aligned, left-aligned, zero-padded}: field length = max(|width|, rendering length) with the rendering at the correct end, wrong-kind arguments are runtime errors that write nothing (law on the implementation alone); 15 error forms (dangling %, dangling width, lone -, unknown codes, width beyond the limit, missing argument, non-string format) after earlier output; sampled: format strings from a grammar (literal runs incl. multi-byte and escapes, 1-5 directives with widths of either sign / leading zero / at the rendering length +-1 / beyond the limit, %%, unknown codes, dangling forms) with exact / too few / too many arguments, wrapped between two other printfs, compared byte for byte with the reference formatter. Non-trivial = a directive with a width, or an error case; distinct by program.",
+		NumCases: c18Cases,
+		Run: func(c *Case) {
+			if c.Idx == 0 {
+				c18Matrix(c)
+			} else {
+				c18Random(c)
+			}
+		},
 		MinConclusive: func(tier string) int { return 5000 },
-		Exhaustive:    func(tier string) string { return "directive x argument x width x alignment matrix and the error-form list" },
-		Assumptions:   []string{"printf rules of DESIGN.md section 3.12; a width on %% and widths written -0... are [P]"},
+		Exhaustive: func(tier string) string {
+			return "directive x argument x width x alignment matrix and the error-form list"
+		},
+		Assumptions: []string{"printf rules of DESIGN.md section 3.12; a width on %% and widths written -0... are [P]"},
 	})
 }
